@@ -53,6 +53,8 @@ def _presets(op, n, tier):
             vecs = [[1] * n, [F(1, 2), 1, 2, 3, 1][:n], [3, 2, 1, 1, F(1, 2)][:n]]
         if n >= 3:
             vecs += [[(0 if i == z else 1 + i) for i in range(n)] for z in range(n)]  # a zero weight at each position
+        if n >= 3:
+            vecs += [[0, 0, 1, 3, 2][:n], [0] * (n - 1) + [1], [1, 0, 0, 2, 0][:n]]  # several inputs switched off, at the front too: the total is positive
         if n >= 2:
             vecs += [[3, -1, 1, 1, 1][:n], [-1, 4, 1, 1, 1][:n], [2, F(-1, 2), 1, 1, 1][:n]]  # a negative weight (the divisor stays their plain sum)
         if tier == "thorough":
